@@ -215,6 +215,7 @@ type pipeOutcome struct {
 	ReadErrors   int
 	Sim          *simrt.Sim
 	BatchSizes   []int
+	ConsumedAt   []time.Duration // fake time since the start of the run at which each match was consumed
 }
 
 func (sc *pipeScenario) matcherFactory() (matchers.Factory, error) {
@@ -272,6 +273,11 @@ func (sc *pipeScenario) installPlans(s *simrt.Sim) {
 
 // runPipe executes the scenario in one bubble.
 func runPipe(rc *RunCtx, sc *pipeScenario, opts simrt.Opts) *pipeOutcome {
+	return runPipeHook(rc, sc, opts, nil)
+}
+
+// runPipeHook is runPipe with a hook that runs first inside the bubble.
+func runPipeHook(rc *RunCtx, sc *pipeScenario, opts simrt.Opts, hook func()) *pipeOutcome {
 	sc.writeInputs()
 	out := &pipeOutcome{}
 	s := rc.NewSim(opts)
@@ -281,6 +287,9 @@ func runPipe(rc *RunCtx, sc *pipeScenario, opts simrt.Opts) *pipeOutcome {
 	var bat *batchers.Batcher
 	var setupErr error
 	s.Run(rc.T, func() {
+		if hook != nil {
+			hook()
+		}
 		mf, err := sc.matcherFactory()
 		if err != nil {
 			setupErr = err
@@ -304,6 +313,9 @@ func runPipe(rc *RunCtx, sc *pipeScenario, opts simrt.Opts) *pipeOutcome {
 			simrt.Yield("world:consumer-recv")
 			out.BatchSizes = append(out.BatchSizes, len(mb))
 			out.Matches = append(out.Matches, mb...)
+			for range mb {
+				out.ConsumedAt = append(out.ConsumedAt, s.Now())
+			}
 			if sc.ConsLatPm > 0 && t.F(1000) < sc.ConsLatPm {
 				time.Sleep(time.Duration(1+t.F(sc.ConsLatMs)) * time.Millisecond)
 				simrt.Yield("world:consumer-latency")
